@@ -48,8 +48,10 @@ def run(tier, replay):
 
     # a seeded "random" long message for the streaming machine (kind 1 stream), plus RFC TEST3 in thorough
     long_len = rnd.randrange(700000, 1048577) if thorough else rnd.randrange(9000, 20000)
+    # plus the lengths at which the bit count crosses 2^16 (8192 bytes) and, thorough, 2^19 bits / RFC TEST3
+    long_lens = [long_len, 8191, 8192] + ([1000000, 65535, 65536] if thorough else [])
     long_cfg = os.path.join(wd, "Gen_Sha1_long.cfg")
-    sha1_long_cfg(long_cfg, [long_len] + ([1000000, 65536] if thorough else []), [1, 4] if thorough else [1])
+    sha1_long_cfg(long_cfg, long_lens, [1, 4] if thorough else [1])
 
     # (name, module, cfg, workers, kind, required actions / expected violation, heap)
     jobs = [
@@ -57,19 +59,20 @@ def run(tier, replay):
         ("sha1 mutation PadFits56", "MC_Sha1.tla", "MC_Sha1_mut_PadFits56.cfg", 2, "sens", "invariant"),
         ("sha1 mutation LenInBytes", "MC_Sha1.tla", "MC_Sha1_mut_LenInBytes.cfg", 2, "sens", "invariant"),
         ("sha1 vectors", "MC_Sha1.tla", "Gen_Sha1_thorough.cfg" if thorough else "Gen_Sha1_quick.cfg", 8 if thorough else 4, "gen", None),
-        ("sha1 long messages %s" % ([long_len] + ([1000000, 65536] if thorough else [])), "MC_Sha1.tla", long_cfg, 8 if thorough else 1, "gen", None),
+        ("sha1 long messages %s" % (long_lens), "MC_Sha1.tla", long_cfg, 8 if thorough else 3, "gen", None),
         ("base64 decoder model", "MC_Base64.tla", "MC_Base64_algo_thorough.cfg" if thorough else "MC_Base64_algo_quick.cfg", 4, "mc", ["Alg_Group", "Alg_Reject", "Alg_End"]),
         ("base64 dev B64PlusSlashShift", "MC_Base64.tla", "MC_Base64_dev_B64PlusSlashShift.cfg", 2, "sens", "invariant"),
         ("base64 dev B64PadPanic", "MC_Base64.tla", "MC_Base64_dev_B64PadPanic.cfg", 2, "sens", "invariant"),
         ("base64 dev B64LaxPadding", "MC_Base64.tla", "MC_Base64_dev_B64LaxPadding.cfg", 2, "sens", "invariant"),
-        ("base64 tables, encode and decode vectors", "MC_Base64.tla", "Gen_Base64_thorough.cfg" if thorough else "Gen_Base64_quick.cfg", 2, "gen", None),
+        ("base64 tables, encode and decode vectors", "MC_Base64Tab.tla", "Gen_Base64_thorough.cfg" if thorough else "Gen_Base64_quick.cfg", 2, "gen", None),
         ("percent decoder model", "MC_Percent.tla", "MC_Percent_algo.cfg", 2, "mc", ["Alg_Plain", "Alg_Escape", "Alg_Truncated", "Alg_End"]),
         ("percent every escape", "MC_Percent.tla", "MC_Percent_esc.cfg", 2, "mc", ["Alg_Escape", "Alg_End"]),
         ("percent byte pairs round-trip", "MC_Percent.tla", "MC_Percent_pairs.cfg", 2, "mc", []),
         ("percent dev PercentPlusHex", "MC_Percent.tla", "MC_Percent_dev_PercentPlusHex.cfg", 1, "sens", "invariant"),
+        ("percent encoder mutation Latin1Alnum", "MC_Percent.tla", "MC_Percent_mut_Latin1Alnum.cfg", 1, "sens", "invariant"),
         ("percent encode, decode and escape vectors", "MC_Percent.tla", "Gen_Percent.cfg", 1, "gen", None),
         ("clock of one day", "MC_HttpDate.tla", "MC_HttpDate_clock.cfg", 1, "mcgen", ["Tick_Second", "Tick_Minute", "Tick_Hour"]),
-        ("calendar by month jumps to 9999", "MC_HttpDate.tla", "MC_HttpDate_months.cfg", 1, "mcgen", ["Month_Jump"]),
+        ("calendar by month jumps to 9999", "MC_HttpDate.tla", "MC_HttpDate_months.cfg", 1, "mcgen", ["Month_Jump", "Year_Jump"]),
         ("date mutation NoCentury4Fix", "MC_HttpDate.tla", "MC_HttpDate_mut_NoCentury4Fix.cfg", 1, "sens", "invariant"),
         ("date mutation NoYear4Fix", "MC_HttpDate.tla", "MC_HttpDate_mut_NoYear4Fix.cfg", 1, "sens", "invariant"),
         ("date mutation WrapAt11", "MC_HttpDate.tla", "MC_HttpDate_mut_WrapAt11.cfg", 1, "sens", "invariant"),
@@ -77,15 +80,13 @@ def run(tier, replay):
     if thorough:
         jobs += [
             ("calendar day by day to 9999", "MC_HttpDate.tla", "MC_HttpDate_thorough.cfg", 1, "mcgen", ["Day_Within", "Day_MonthEnd", "Day_YearEnd"]),
-            ("base64 encoder lemma, all 2^24 groups", "MC_Base64.tla", "MC_Base64_enclemma_thorough.cfg", 8, "mc", []),
-            ("base64 decoder lemma, all 68^4 texts", "MC_Base64.tla", "MC_Base64_declemma_thorough.cfg", 8, "mc", []),
+            ("base64 encoder lemma, all 2^24 groups", "MC_Base64Tab.tla", "MC_Base64_enclemma_thorough.cfg", 8, "mc", []),
+            ("base64 decoder lemma, all 68^4 texts", "MC_Base64Tab.tla", "MC_Base64_declemma_thorough.cfg", 8, "mc", []),
         ]
     else:
         jobs += [
             ("calendar day by day to 2105", "MC_HttpDate.tla", "MC_HttpDate_quick.cfg", 1, "mcgen", ["Day_Within", "Day_MonthEnd", "Day_YearEnd"]),
-            ("base64 encoder lemma (a,b,few c)", "MC_Base64.tla", "MC_Base64_enclemma_quick1.cfg", 4, "mc", []),
-            ("base64 encoder lemma (few a,b,c)", "MC_Base64.tla", "MC_Base64_enclemma_quick2.cfg", 4, "mc", []),
-            ("base64 decoder lemma (few,68,68,few)", "MC_Base64.tla", "MC_Base64_declemma_quick.cfg", 4, "mc", []),
+            ("base64 encoder and decoder lemmas, samples (256x32x2, 2x256x32 bytes; 2x68x68x4 symbols)", "MC_Base64Tab.tla", "MC_Base64_lemmas_quick.cfg", 4, "mc", []),
         ]
 
     n_rand = 600 if thorough else 150
@@ -133,6 +134,9 @@ def run(tier, replay):
             continue
         if kind in ("mc", "mcgen") and arg:
             ctx.require_cover(name, r, arg)
+        if cfg == "MC_HttpDate_months.cfg" and r.distinct != 96360:
+            # Year_Jump must land on states the month jumps reach anyway (12 months x 8030 years)
+            ctx.violation("calendar: year jumps and month jumps reach different states (%d distinct)" % r.distinct, {"kind": "spec-internal"})
         if kind in ("gen", "mcgen"):
             if not r.prints:
                 raise vlib.ToolError("generation %s printed nothing:\n%s" % (name, r.out[-1500:]))
@@ -202,7 +206,13 @@ def run(tier, replay):
     if ctx.violations:
         # a broken tree: report what was found; the binding self-test presumes a clean run
         return ctx.finish()
-    # 4. binding self-test (quick and thorough): corrupted vectors / a corrupted record must be rejected
+    # 4. binding self-test (quick and thorough): corrupted vectors / a corrupted record must be rejected.
+    #    Only after a clean validation: on a broken tree the verdict is the violation found above.
+    if ctx.violations:
+        for f in (tr, long_cfg):
+            if os.path.exists(f):
+                os.remove(f)
+        return ctx.finish()
     def first(pred):
         return copy.deepcopy(next(x for x in others if pred(x)))
     c1 = first(lambda x: x.get("k") == "sha1" and x["len"] == 56)
